@@ -27,7 +27,7 @@ func init() {
 		Title: "The language server answers from the latest text",
 		Rule: "(a) model state = uri -> latest text over U URIs (one more is never opened) and T texts (valid with variables; same names with other types and positions; erroneous half-typed; empty; ...); operations didOpen / didChange(uri, text) (didChange also with several content changes, the last one wins); ALL histories of length <= H, then breadth-first to depth D deduplicated on the model state, which must equal the server's own document map (read through an overlay export shim) in every reached state; in EVERY reached state the full query battery: hover and definition at every position of every URI and documentSymbol of every URI; " +
 			"oracle: every response and every publishDiagnostics notification (captured from stdout) equals that of a fresh server that has only seen didOpen(uri, latest text); unopened URI => null; " +
-			"(b) navigation: all generator scripts (variable-rich, weight <= W) x EVERY position: inside a use of a declared variable => hover names that variable and its declared type over the use's range, definition is the exact range of the declaration; on a builtin function name => that builtin; elsewhere => nothing (the position at a token's end may answer either way); " +
+			"(b) navigation: all generator scripts (variable-rich, weight <= W, including send-all statements over sources the checker rejects) x EVERY position, and those of weight <= W-1 also laid out one token per line with falling / with rising indentation x EVERY position of every line: inside a use of a declared variable => hover names that variable and its declared type over the use's range, definition is the exact range of the declaration; on a builtin function name => that builtin; elsewhere => nothing (the position at a token's end may answer either way); " +
 			"non-trivial = the history changes some document at least once after opening it or touches two URIs / the script has >= 1 variable use; distinct = history / script text",
 		Assumptions: []string{"histories are well-formed: the first notification for a URI is didOpen, later ones didChange, every didChange carries >= 1 content change", "symbol lists are compared as sets (the protocol does not order them)"},
 		QuickBudget: 80 * time.Second,
@@ -230,7 +230,9 @@ func runC19(w *mc.Worker) {
 	if w.Tier == "thorough" {
 		nURI, nText, full, depth = 3, 6, 4, 7
 	}
-	uris := []string{"file:///a.num", "file:///b.num", "file:///c.num", "file:///never-opened.num"}
+	// URIs that differ only in ways a normalising store would conflate: letter case, an escaped
+	// character, a trailing segment
+	uris := []string{"file:///w/Fees.num", "file:///w/fees.num", "file:///w/fees%2Enum", "file:///w/fees.num/"}
 	texts := c19Texts[:nText]
 	var ops []c19Op
 	for u := 0; u < nURI; u++ {
@@ -476,23 +478,42 @@ func runC19(w *mc.Worker) {
 	if w.Tier == "thorough" {
 		weight = 3
 	}
-	name3 := fmt.Sprintf("navigation-v%d", weight)
-	w.Stage(name3, fmt.Sprintf("variable-rich generator scripts of weight <= %d x every position: hover and definition against declarations and uses", weight), func() {
-		g := &Full{MaxStmts: 2, Depth: 2, VarsFree: true}
-		w.Outer(name3+"/script", weight, func(o *mc.Explorer) {
-			prog := g.Program(o)
-			pr := gen.Print(prog)
-			text := pr.Text()
-			if !w.Mine(text) {
-				return
-			}
-			w.Owned()
-			_, starts, ends := pr.Render(pr.DefaultSeps())
-			w.Inner(0, func(in *mc.Explorer) {
-				navCheck(w, prog, pr, text, starts, ends, uris[0])
+	navStage := func(name string, weight int, layouts []int, what string) {
+		w.Stage(name, fmt.Sprintf("variable-rich generator scripts of weight <= %d x %s x every position of every line: hover and definition against declarations and uses", weight, what), func() {
+			g := &Full{MaxStmts: 2, Depth: 2, VarsFree: true, Unchecked: true}
+			w.Outer(name+"/script", weight, func(o *mc.Explorer) {
+				prog := g.Program(o)
+				pr := gen.Print(prog)
+				text := pr.Text()
+				if !w.Mine(text) {
+					return
+				}
+				w.Owned()
+				w.Inner(0, func(in *mc.Explorer) {
+					seps := pr.DefaultSeps()
+					n := len(pr.Toks)
+					switch layouts[in.Choose(len(layouts))] {
+					case 1: // one token per line, indentation falling 4,2,0,4,2,0,...
+						for i := 0; i < n; i++ {
+							seps[i] = "\n" + strings.Repeat(" ", 2*((n-1-i)%3))
+						}
+						if n > 0 {
+							seps[0] = seps[0][1:]
+						}
+					case 2: // one token per line, indentation rising 0,2,4,0,2,4,...
+						for i := 1; i < n; i++ {
+							seps[i] = "\n" + strings.Repeat(" ", 2*(i%3))
+						}
+					}
+					seps[n] = "\n"
+					ltext, starts, ends := pr.Render(seps)
+					navCheck(w, prog, pr, ltext, starts, ends, uris[0])
+				})
 			})
 		})
-	})
+	}
+	navStage(fmt.Sprintf("navigation-v%d", weight), weight, []int{0}, "the one-line layout")
+	navStage(fmt.Sprintf("navigation-layouts-v%d", weight-1), weight-1, []int{1, 2}, "2 layouts with one token per line (indentation falling / rising, so that earlier tokens start right / left of later ones)")
 }
 
 func indexOf(xs []string, x string) int {
@@ -589,79 +610,86 @@ func navCheck(w *mc.Worker, prog *gen.Program, pr *gen.Printed, text string, sta
 		}
 	}
 	bad, clause := "", ""
-	lineLen := len([]rune(strings.TrimSuffix(text, "\n")))
-	for ch := 0; ch <= lineLen+1 && bad == ""; ch++ {
-		// which token (if any) contains ch strictly / at its end
-		inside, atEnd := -1, -1
-		for ti := range pr.Toks {
-			if starts[ti].Char <= ch && ch < ends[ti].Char {
-				inside = ti
+	lines := strings.Split(text, "\n")
+	npos := 0
+	for ln := 0; ln < len(lines) && bad == ""; ln++ {
+		for ch := 0; ch <= len([]rune(lines[ln]))+1 && bad == ""; ch++ {
+			npos++
+			// which token (if any) contains ch strictly / at its end
+			inside, atEnd := -1, -1
+			for ti := range pr.Toks {
+				if starts[ti].Line != ln {
+					continue
+				}
+				if starts[ti].Char <= ch && ch < ends[ti].Char {
+					inside = ti
+				}
+				if ch == ends[ti].Char {
+					atEnd = ti
+				}
 			}
-			if ch == ends[ti].Char {
-				atEnd = ti
+			hv, _, p1 := s.call("textDocument/hover", posParams(uri, ln, ch))
+			df, _, p2 := s.call("textDocument/definition", posParams(uri, ln, ch))
+			if p1 != "" || p2 != "" {
+				bad, clause = fmt.Sprintf("hover/definition at %d:%d panicked: %s%s", ln, ch, p1, p2), "C19.panic:query"
+				break
 			}
-		}
-		hv, _, p1 := s.call("textDocument/hover", posParams(uri, 0, ch))
-		df, _, p2 := s.call("textDocument/definition", posParams(uri, 0, ch))
-		if p1 != "" || p2 != "" {
-			bad, clause = fmt.Sprintf("hover/definition at 0:%d panicked: %s%s", ch, p1, p2), "C19.panic:query"
-			break
-		}
-		expectTok := func(ti int) (string, bool) {
-			// returns a complaint if the answers are not those for token ti
-			tinfo, ok := info[ti]
-			if !ok {
-				if hv != "null" || df != "null" {
-					return fmt.Sprintf("position 0:%d is not on a variable use or builtin name, yet hover=%s definition=%s", ch, hv, df), false
+			expectTok := func(ti int) (string, bool) {
+				// returns a complaint if the answers are not those for token ti
+				tinfo, ok := info[ti]
+				if !ok {
+					if hv != "null" || df != "null" {
+						return fmt.Sprintf("position %d:%d is not on a variable use or builtin name, yet hover=%s definition=%s", ln, ch, hv, df), false
+					}
+					return "", true
+				}
+				var h hoverResp
+				if err := json.Unmarshal([]byte(hv), &h); err != nil || hv == "null" || h.Range == nil {
+					return fmt.Sprintf("position %d:%d is inside `%s` but hover answered %s", ln, ch, pr.Toks[ti], hv), false
+				}
+				if h.Range.Start.Character != starts[ti].Char || h.Range.End.Character != ends[ti].Char || h.Range.Start.Line != ln || h.Range.End.Line != ln {
+					return fmt.Sprintf("hover at %d:%d covers %d-%d, the token `%s` spans %d-%d", ln, ch, h.Range.Start.Character, h.Range.End.Character, pr.Toks[ti], starts[ti].Char, ends[ti].Char), false
+				}
+				if tinfo.kind == "builtin" {
+					if !strings.Contains(h.Contents.Value, tinfo.name+"(") {
+						return fmt.Sprintf("hover on builtin `%s` shows %q", tinfo.name, h.Contents.Value), false
+					}
+					if df != "null" {
+						return fmt.Sprintf("definition on builtin `%s` answered %s", tinfo.name, df), false
+					}
+					return "", true
+				}
+				if !strings.Contains(h.Contents.Value, "$"+tinfo.name+": "+tinfo.typ) {
+					return fmt.Sprintf("hover on $%s (declared %s) shows %q", tinfo.name, tinfo.typ, h.Contents.Value), false
+				}
+				var l locResp
+				if err := json.Unmarshal([]byte(df), &l); err != nil || df == "null" {
+					return fmt.Sprintf("definition of $%s answered %s", tinfo.name, df), false
+				}
+				dt := tinfo.declSpan[0]
+				if l.URI != uri || l.Range.Start.Character != starts[dt].Char || l.Range.End.Character != ends[dt].Char || l.Range.Start.Line != starts[dt].Line || l.Range.End.Line != starts[dt].Line {
+					return fmt.Sprintf("definition of $%s points to %d:%d-%d, its declaration is at %d:%d-%d", tinfo.name, l.Range.Start.Line, l.Range.Start.Character, l.Range.End.Character, starts[dt].Line, starts[dt].Char, ends[dt].Char), false
 				}
 				return "", true
 			}
-			var h hoverResp
-			if err := json.Unmarshal([]byte(hv), &h); err != nil || hv == "null" || h.Range == nil {
-				return fmt.Sprintf("position 0:%d is inside `%s` but hover answered %s", ch, pr.Toks[ti], hv), false
-			}
-			if h.Range.Start.Character != starts[ti].Char || h.Range.End.Character != ends[ti].Char || h.Range.Start.Line != 0 {
-				return fmt.Sprintf("hover at 0:%d covers %d-%d, the token `%s` spans %d-%d", ch, h.Range.Start.Character, h.Range.End.Character, pr.Toks[ti], starts[ti].Char, ends[ti].Char), false
-			}
-			if tinfo.kind == "builtin" {
-				if !strings.Contains(h.Contents.Value, tinfo.name+"(") {
-					return fmt.Sprintf("hover on builtin `%s` shows %q", tinfo.name, h.Contents.Value), false
-				}
-				if df != "null" {
-					return fmt.Sprintf("definition on builtin `%s` answered %s", tinfo.name, df), false
-				}
-				return "", true
-			}
-			if !strings.Contains(h.Contents.Value, "$"+tinfo.name+": "+tinfo.typ) {
-				return fmt.Sprintf("hover on $%s (declared %s) shows %q", tinfo.name, tinfo.typ, h.Contents.Value), false
-			}
-			var l locResp
-			if err := json.Unmarshal([]byte(df), &l); err != nil || df == "null" {
-				return fmt.Sprintf("definition of $%s answered %s", tinfo.name, df), false
-			}
-			dt := tinfo.declSpan[0]
-			if l.URI != uri || l.Range.Start.Character != starts[dt].Char || l.Range.End.Character != ends[dt].Char || l.Range.Start.Line != 0 || l.Range.End.Line != 0 {
-				return fmt.Sprintf("definition of $%s points to %d-%d, its declaration is at %d-%d", tinfo.name, l.Range.Start.Character, l.Range.End.Character, starts[dt].Char, ends[dt].Char), false
-			}
-			return "", true
-		}
-		switch {
-		case inside >= 0:
-			msg, ok := expectTok(inside)
-			// the first character of a token can also be the end position of the previous one only when they touch (never in this layout)
-			if !ok {
-				bad, clause = msg, "C19.navigation"
-			}
-		case atEnd >= 0:
-			// a token's end position may answer as the token or as nothing
-			if msg, ok := expectTok(atEnd); !ok {
-				if hv != "null" || df != "null" {
+			switch {
+			case inside >= 0:
+				msg, ok := expectTok(inside)
+				// the first character of a token can also be the end position of the previous one only when they touch (never in this layout)
+				if !ok {
 					bad, clause = msg, "C19.navigation"
 				}
-			}
-		default:
-			if hv != "null" || df != "null" {
-				bad, clause = fmt.Sprintf("position 0:%d is between tokens, yet hover=%s definition=%s", ch, hv, df), "C19.navigation"
+			case atEnd >= 0:
+				// a token's end position may answer as the token or as nothing
+				if msg, ok := expectTok(atEnd); !ok {
+					if hv != "null" || df != "null" {
+						bad, clause = msg, "C19.navigation"
+					}
+				}
+			default:
+				if hv != "null" || df != "null" {
+					bad, clause = fmt.Sprintf("position %d:%d is between tokens, yet hover=%s definition=%s", ln, ch, hv, df), "C19.navigation"
+				}
 			}
 		}
 	}
@@ -669,7 +697,7 @@ func navCheck(w *mc.Worker, prog *gen.Program, pr *gen.Printed, text string, sta
 	if bad != "" {
 		w.Violation(clause, bad, len(text), Case{Script: text})
 	} else if nVarUses > 0 {
-		w.Sample(fmt.Sprintf("uses%d", nVarUses%4), Case{Script: text, Observed: fmt.Sprintf("%d positions agree", lineLen+2)})
+		w.Sample(fmt.Sprintf("uses%d", nVarUses%4), Case{Script: text, Observed: fmt.Sprintf("%d positions agree", npos)})
 	}
 }
 
